@@ -22,6 +22,7 @@ Value kinds that no parser path produces (tuple, nested list, int, float: see `s
 their outcomes are reported under "non_parser_value_kinds", not as violations.
 """
 import json
+import re
 import logging
 import os
 import pickle
@@ -212,7 +213,8 @@ def evaluate(t, site_of, dialects, always_sql, inp, st, informational=False, inf
         st["calls"][ch] = st["calls"].get(ch, 0) + 1
         kind, r = rts[ch]
         if kind == "not-json":
-            add(ch, "not-json", site_of(None), f"json.dumps(dump(t)) raised {r!r}")
+            m = re.search(r"Object of type (\w+) is not JSON", str(r))
+            add(ch, "not-json" + (f"-{m.group(1)}" if m else ""), site_of(None), f"json.dumps(dump(t)) raised {r!r}")
             continue
         if kind == "exc":
             add(ch, f"exception:{type(r).__name__}", site_of(None), f"{ch} round-trip raised {r!r}")
@@ -239,7 +241,8 @@ def evaluate(t, site_of, dialects, always_sql, inp, st, informational=False, inf
             sql_r = sql_all(r, dialects)
             if sql_r != sql_t:
                 j = [x != y for x, y in zip(sql_t, sql_r)].index(True)
-                add(ch, "sql-differs", site_of(None), f"dialect {dialects[j] or 'base'}: {str(sql_t[j])[:80]!r} -> {str(sql_r[j])[:80]!r}")
+                sd = snap_diff(strict_t, strict_r)  # the node at which the round-tripped tree first differs, if any
+                add(ch, "sql-differs", site_of(sd[1] if sd else None), f"dialect {dialects[j] or 'base'}: {str(sql_t[j])[:80]!r} -> {str(sql_r[j])[:80]!r}")
 
 
 # ---------------------------------------------------------------------------------------------------
@@ -457,9 +460,27 @@ MARKER_STATEMENTS = [
 ]
 
 
+# dialect-specific constructs whose trees hold something other than nodes, strings, numbers and flags
+DIALECT_STATEMENTS = [
+    ("SELECT json.a.b[].c", "clickhouse"),
+    ("SELECT json.a.b[][]", "clickhouse"),
+    ("CREATE TABLE test_table (c1 INT, c2 DATE) PARTITION BY RANGE (`c2`) (PARTITION `p201701` VALUES [('2017-01-01'), ('2017-02-01')), PARTITION `other` VALUES LESS THAN (MAXVALUE))", "doris"),
+    ("SELECT IDENTIFIER('speed_of_light')()", "snowflake"),
+    ("SELECT IDENTIFIER($my_function_name)()", "snowflake"),
+    ("ANALYZE tbl", "sqlite"),
+    ("SELECT CAST(x AS my_schema.mood), CAST(y AS mood) FROM t", "postgres"),
+    ("CREATE TABLE person (name TEXT, current_mood mood)", "postgres"),
+    ("SELECT CAST(somelist AS data_list) FROM t", "oracle"),
+    ("SELECT CAST(x AS Nullable(String)), CAST(y AS LowCardinality(Nullable(String))) FROM t", "clickhouse"),
+    ("SELECT CAST(1 AS mz_timestamp)", "materialize"),
+]
+
+
 def _plan(tier):
     ds = corpus.dialects()
     items = [("class", n) for n in expr_classes()]
+    for sql, read in DIALECT_STATEMENTS:
+        items.append(("corpus", sql, read, sorted({"", read, "duckdb"}), True))
     for sql in MARKER_STATEMENTS:
         items.append(("corpus", sql, "", DIALECTS8, True))
         items.append(("corpus", sql, "snowflake", DIALECTS8, False))
